@@ -11,17 +11,22 @@ package headersCache
 //       needs the mutex (read or write mode): lock: obligations;
 //   (2) a cache method that is called by a pool method holding only RLock must not write: it carries `assigns nothing`
 //       (frame: obligations), and so do the RLock-only pool methods (GetNumHeaders, Nonces, Len, MaxSize).
-// The index-consistency half of C29 (hash index <-> (shard, nonce) lists <-> counters) is NOT decided here: every path
-// through listOfHeadersByNonces calls time.Now() (no model: whole heap havoc) and the maps hold structs by value.
+// The index-consistency half of C29 (hash index <-> (shard, nonce) lists <-> counters) is stated in the ADDITIONAL blocks at the
+// end of this file (delta contracts on an arbitrary witness hash; time.Now() gets an extern frame contract there).
 
 /*@
 struct headersPool
   guarded_by mutHeadersPool: cache
   guarded_by mutAddedDataHandlers: addedDataHandlers
   invariant wired: cache != nil && cache.headersNonceCache != nil
+  // representation invariants of the cache (added with the index half; assumed at pool-method entry, see the end of the file)
+  invariant maps-made: cache.headersByHash != nil && cache.headersCounter != nil
+  invariant shard-maps-made: forall s uint32 :: has(cache.headersNonceCache, s) ==> cache.headersNonceCache[s] != nil
+  invariant shard-maps-not-shared: forall s uint32 :: has(cache.headersNonceCache, wS()) && wS() != s ==> cache.headersNonceCache[wS()] != cache.headersNonceCache[s] && allocated(cache.headersNonceCache[wS()])
 
 // ---- counters ---------------------------------------------------------------------------------------------------------
 func (nhs numHeadersByShard) getCount(shardId uint32) (r int64)
+  ensures value: r == (has(nhs, shardId) ? int64(nhs[shardId]) : 0)      // (added with the index half)
   assigns nothing
 
 func (nhs numHeadersByShard) totalHeaders() (r int)
@@ -32,9 +37,12 @@ loop 1
 
 // ---- cache: read-only lookups (called under RLock) ---------------------------------------------------------------------
 func (cache *headersCache) getNumHeaders(shardId uint32) (r int64)
+  holds_r ownerPool(cache).mutHeadersPool
+  ensures value: r == (has(cache.headersCounter, shardId) ? int64(cache.headersCounter[shardId]) : 0)      // (added with the index half)
   assigns nothing
 
 func (cache *headersCache) totalHeaders() (r int)
+  holds_r ownerPool(cache).mutHeadersPool
   assigns nothing
 
 func (hMap listOfHeadersByNonces) keys() (r []uint64)
@@ -46,58 +54,77 @@ loop 1
 
 // C29 "lookups of shards never seen before": Nonces() holds only RLock, so keys() must be a pure lookup.
 func (cache *headersCache) keys(shardId uint32) (r []uint64)
+  holds_r ownerPool(cache).mutHeadersPool
   assigns nothing      // F29 repaired: a plain lookup, no per-shard map is created for an unseen shard
 
 // ---- cache: writers (called under Lock) ----------------------------------------------------------------------------------
 func (cache *headersCache) getShardMap(shardId uint32) (m listOfHeadersByNonces)
+  holds ownerPool(cache).mutHeadersPool
   requires cache.headersNonceCache != nil
+  // (the ensures were added with the index half)
+  ensures present: has(cache.headersNonceCache, shardId) && m == cache.headersNonceCache[shardId]
+  ensures non-nil: (!old(has(cache.headersNonceCache, shardId)) || old(cache.headersNonceCache[shardId]) != nil) ==> m != nil
+  ensures kept: old(has(cache.headersNonceCache, shardId)) ==> m == old(cache.headersNonceCache[shardId])
+  ensures made: !old(has(cache.headersNonceCache, shardId)) ==> fresh(m) && len(m) == 0 && (forall n uint64 :: !has(m, n))
+  ensures others: forall s uint32 :: s != shardId ==> has(cache.headersNonceCache, s) == old(has(cache.headersNonceCache, s)) && cache.headersNonceCache[s] == old(cache.headersNonceCache[s])
   assigns mapof(cache.headersNonceCache)
 
 func (cache *headersCache) clear()
+  holds ownerPool(cache).mutHeadersPool
   ensures emptied: len(cache.headersNonceCache) == 0 && len(cache.headersCounter) == 0 && len(cache.headersByHash) == 0
   assigns cache.headersNonceCache, cache.headersCounter, cache.headersByHash
 
 // ---- pool ---------------------------------------------------------------------------------------------------------------
 func (pool *headersPool) GetNumHeaders(shardId uint32) (r int)
   requires inv(pool)
+  requires owner: ownerPool(pool.cache) == pool       // ghost: the cache belongs to this pool (see the lock-mode block near the end)
   ensures lock-released: !held(pool.mutHeadersPool) && !heldR(pool.mutHeadersPool)
   assigns nothing
 
 func (pool *headersPool) Nonces(shardId uint32) (r []uint64)
   requires inv(pool)
+  requires owner: ownerPool(pool.cache) == pool       // ghost: the cache belongs to this pool (see the lock-mode block near the end)
   ensures lock-released: !held(pool.mutHeadersPool) && !heldR(pool.mutHeadersPool)
   assigns nothing
 
 func (pool *headersPool) Len() (r int)
   requires inv(pool)
+  requires owner: ownerPool(pool.cache) == pool       // ghost: the cache belongs to this pool (see the lock-mode block near the end)
   ensures lock-released: !held(pool.mutHeadersPool) && !heldR(pool.mutHeadersPool)
   assigns nothing
 
 func (pool *headersPool) MaxSize() (r int)
   requires inv(pool)
+  requires owner: ownerPool(pool.cache) == pool       // ghost: the cache belongs to this pool (see the lock-mode block near the end)
   ensures lock-released: !held(pool.mutHeadersPool) && !heldR(pool.mutHeadersPool)
   assigns nothing
 
 func (pool *headersPool) Clear()
   requires inv(pool)
+  requires owner: ownerPool(pool.cache) == pool       // ghost: the cache belongs to this pool (see the lock-mode block near the end)
   ensures lock-released: !held(pool.mutHeadersPool) && !heldR(pool.mutHeadersPool)
   assigns pool.cache.headersNonceCache, pool.cache.headersCounter, pool.cache.headersByHash
 
 // writers whose cache callees are outside the engine's reach (time.Now, sort.Slice): lock obligations only
 func (pool *headersPool) RemoveHeaderByHash(headerHash []byte)
   requires inv(pool)
+  requires owner: ownerPool(pool.cache) == pool       // ghost: the cache belongs to this pool (see the lock-mode block near the end)
+  requires no-hash-twice: distinctHashes(pool.cache, shOf(pool.cache, str(headerHash)), nnOf(pool.cache, str(headerHash)))   // representation invariant of the list the hash is in (added with the index half)
   ensures lock-released: !held(pool.mutHeadersPool) && !heldR(pool.mutHeadersPool)
 
 func (pool *headersPool) RemoveHeaderByNonceAndShardId(hdrNonce uint64, shardId uint32)
   requires inv(pool)
+  requires owner: ownerPool(pool.cache) == pool       // ghost: the cache belongs to this pool (see the lock-mode block near the end)
   ensures lock-released: !held(pool.mutHeadersPool) && !heldR(pool.mutHeadersPool)
 
 func (pool *headersPool) GetHeaderByHash(hash []byte) (h data.HeaderHandler, err error)
   requires inv(pool)
+  requires owner: ownerPool(pool.cache) == pool       // ghost: the cache belongs to this pool (see the lock-mode block near the end)
   ensures lock-released: !held(pool.mutHeadersPool) && !heldR(pool.mutHeadersPool)
 
 func (pool *headersPool) AddHeader(headerHash []byte, header data.HeaderHandler)
   requires inv(pool)
+  requires owner: ownerPool(pool.cache) == pool       // ghost: the cache belongs to this pool (see the lock-mode block near the end)
   ensures lock-released: !held(pool.mutHeadersPool) && !heldR(pool.mutHeadersPool)
 
 // handlers run on their own goroutines (`go handler(..)`: abstracted, heap havoc'd there); the handler list is read under its mutex
@@ -114,5 +141,357 @@ func (pool *headersPool) RegisterHandler(handler func(headerHandler data.HeaderH
 
 func (pool *headersPool) GetHeadersByNonceAndShardId(hdrNonce uint64, shardId uint32) (hs []data.HeaderHandler, hashes [][]byte, err error)
   requires inv(pool)
+  requires owner: ownerPool(pool.cache) == pool       // ghost: the cache belongs to this pool (see the lock-mode block near the end)
   ensures lock-released: !held(pool.mutHeadersPool) && !heldR(pool.mutHeadersPool)
 @*/
+
+// ===== C29, index-consistency half (agent T): delta contracts of the index functions ===========================================
+// Representation: headersByHash: hash -> (shard, nonce); headersNonceCache: shard -> nonce -> {items []headerDetails, timestamp};
+// headersCounter: shard -> count. The clauses speak about an ARBITRARY witness: wH() (a hash), wS()/wN() (a shard/nonce pair) are
+// uninterpreted constants without axioms, so every clause is proved for every hash / pair.
+
+/*@
+extern func time.Now() (t time.Time)
+  assigns nothing
+
+func (h data.HeaderHandler) GetNonce() (r uint64)
+  pure
+func (h data.HeaderHandler) GetShardID() (r uint32)
+  pure
+
+// ---- one timestamped list ----------------------------------------------------------------------------------------------
+func (listOfHeaders *timestampedListOfHeaders) isEmpty() (r bool)
+  ensures def: r == (len(listOfHeaders.items) == 0)
+  assigns nothing
+
+// append(items[:index], items[index+1:]...) : in place, on the same backing array
+func (listOfHeaders *timestampedListOfHeaders) removeHeader(index int)
+  requires in-range: 0 <= index && index < len(listOfHeaders.items)
+  ensures shorter: len(listOfHeaders.items) == old(len(listOfHeaders.items)) - 1
+  ensures same-array: base(listOfHeaders.items) == old(base(listOfHeaders.items)) && off(listOfHeaders.items) == old(off(listOfHeaders.items))
+  // new -> old and old -> new index maps, one quantifier each (two separate prefix/shifted clauses make a matching loop)
+  ensures from-old: forall j :: 0 <= j && j < len(listOfHeaders.items) ==> listOfHeaders.items[j].headerHash == old(listOfHeaders.items[ixf(srcIdx(j, index))].headerHash) && listOfHeaders.items[j].header == old(listOfHeaders.items[ixf(srcIdx(j, index))].header)
+  ensures trigger-term: ixf(index) == index
+  ensures to-new: forall j :: 0 <= j && j < old(len(listOfHeaders.items)) && j != index ==> old(listOfHeaders.items[j].headerHash) == listOfHeaders.items[dstIdx(j, index)].headerHash
+  assigns listOfHeaders.items, elems(listOfHeaders.items)
+
+// index maps of "remove position cut" (opaque symbols: an ite inside the array index is lifted by the solvers and no longer E-matches)
+spec fn srcIdx(j int, cut int) int
+  axiom srcIdx(j, cut) == (j < cut ? j : j + 1)
+spec fn dstIdx(j int, cut int) int
+  axiom dstIdx(j, cut) == (j < cut ? j : j - 1)
+
+func (listOfHeaders *timestampedListOfHeaders) getHashes() (r [][]byte)
+  ensures fresh(r)
+  ensures same-len: len(r) == len(listOfHeaders.items)
+  ensures same-hashes: forall j :: 0 <= j && j < len(r) ==> r[j] == listOfHeaders.items[j].headerHash
+  assigns nothing
+
+loop 1
+  invariant -1 <= rangeindex && rangeindex < len(listOfHeaders.items)
+  invariant fresh(hashes) && len(hashes) == rangeindex + 1
+  invariant forall j :: 0 <= j && j <= rangeindex ==> hashes[j] == listOfHeaders.items[j].headerHash
+@*/
+
+/*@
+// ---- nonce -> list map of one shard ---------------------------------------------------------------------------------------
+func (hMap listOfHeadersByNonces) getListOfHeaders(nonce uint64) (r timestampedListOfHeaders)
+  ensures stored: has(hMap, nonce) ==> r.items == hMap[nonce].items
+  ensures absent: !has(hMap, nonce) ==> len(r.items) == 0 && fresh(r.items)
+  assigns nothing
+
+func (hMap listOfHeadersByNonces) setListOfHeaders(nonce uint64, element timestampedListOfHeaders)
+  requires hMap != nil
+  ensures stored: has(hMap, nonce) && hMap[nonce].items == element.items
+  ensures others: forall k uint64 :: k != nonce ==> (has(hMap, k) == old(has(hMap, k)) && hMap[k].items == old(hMap[k].items))
+  assigns mapof(hMap)
+
+func (hMap listOfHeadersByNonces) removeListOfHeaders(nonce uint64)
+  ensures removed: !has(hMap, nonce)
+  ensures others: forall k uint64 :: k != nonce ==> (has(hMap, k) == old(has(hMap, k)) && hMap[k].items == old(hMap[k].items))
+  assigns mapof(hMap)
+
+// lookup that refreshes the timestamp: the stored list (slice header) is what it was
+func (hMap listOfHeadersByNonces) getHeadersByNonce(hdrNonce uint64) (r timestampedListOfHeaders, ok bool)
+  requires hMap != nil
+  ensures found: ok == (old(has(hMap, hdrNonce)) && len(old(hMap[hdrNonce].items)) != 0)
+  ensures result: ok ==> r.items == old(hMap[hdrNonce].items)
+  ensures kept: has(hMap, hdrNonce) == old(has(hMap, hdrNonce)) && hMap[hdrNonce].items == old(hMap[hdrNonce].items)
+  ensures others: forall k uint64 :: k != hdrNonce ==> (has(hMap, k) == old(has(hMap, k)) && hMap[k].items == old(hMap[k].items))
+  assigns mapof(hMap)
+
+func (hMap listOfHeadersByNonces) appendHeaderToList(headerHash []byte, header data.HeaderHandler)
+  requires hMap != nil && header != nil
+  ensures listed: has(hMap, header.GetNonce()) && len(hMap[header.GetNonce()].items) == (old(has(hMap, header.GetNonce())) ? old(len(hMap[header.GetNonce()].items)) : 0) + 1
+  ensures last: hMap[header.GetNonce()].items[len(hMap[header.GetNonce()].items) - 1].headerHash == headerHash
+  ensures prefix: old(has(hMap, header.GetNonce())) ==> forall j :: 0 <= j && j < old(len(hMap[header.GetNonce()].items)) ==> hMap[header.GetNonce()].items[j].headerHash == old(hMap[header.GetNonce()].items[j].headerHash)
+  ensures others: forall k uint64 :: k != header.GetNonce() ==> (has(hMap, k) == old(has(hMap, k)) && hMap[k].items == old(hMap[k].items))
+  assigns mapof(hMap), elems(hMap[header.GetNonce()].items)
+
+// ---- shard -> count ---------------------------------------------------------------------------------------------------------
+func (nhs numHeadersByShard) increment(shardId uint32)
+  requires nhs != nil
+  ensures plus-one: has(nhs, shardId) && nhs[shardId] == ((old(has(nhs, shardId)) ? old(nhs[shardId]) : 0) + 1) % 18446744073709551616
+  ensures others: forall k uint32 :: k != shardId ==> (has(nhs, k) == old(has(nhs, k)) && nhs[k] == old(nhs[k]))
+  assigns mapof(nhs)
+
+func (nhs numHeadersByShard) decrement(shardId uint32, value int)
+  requires 0 <= value
+  ensures minus: old(has(nhs, shardId)) ==> has(nhs, shardId) && nhs[shardId] == (old(nhs[shardId]) >= value ? old(nhs[shardId]) - value : old(nhs[shardId]) - value + 18446744073709551616)
+  ensures absent: !old(has(nhs, shardId)) ==> !has(nhs, shardId)
+  ensures others: forall k uint32 :: k != shardId ==> (has(nhs, k) == old(has(nhs, k)) && nhs[k] == old(nhs[k]))
+  assigns mapof(nhs)
+
+// ---- hash -> (shard, nonce) ----------------------------------------------------------------------------------------------------
+func (hhm headersByHashMap) addElement(hash []byte, info headerInfo) (dup bool)
+  requires hhm != nil
+  ensures dup-flag: dup == old(has(hhm, str(hash)))
+  ensures stored: has(hhm, str(hash)) && (!dup ==> hhm[str(hash)].headerNonce == info.headerNonce && hhm[str(hash)].headerShardId == info.headerShardId)
+  ensures dup-keeps: dup ==> hhm[str(hash)].headerNonce == old(hhm[str(hash)].headerNonce) && hhm[str(hash)].headerShardId == old(hhm[str(hash)].headerShardId)
+  ensures witness: wH() != str(hash) ==> has(hhm, wH()) == old(has(hhm, wH())) && hhm[wH()].headerNonce == old(hhm[wH()].headerNonce) && hhm[wH()].headerShardId == old(hhm[wH()].headerShardId)
+  assigns mapof(hhm)
+
+func (hhm headersByHashMap) deleteElement(hash []byte)
+  ensures removed: !has(hhm, str(hash))
+  ensures witness: wH() != str(hash) ==> has(hhm, wH()) == old(has(hhm, wH())) && hhm[wH()].headerNonce == old(hhm[wH()].headerNonce) && hhm[wH()].headerShardId == old(hhm[wH()].headerShardId)
+  assigns mapof(hhm)
+
+func (hhm headersByHashMap) getElement(hash []byte) (info headerInfo, ok bool)
+  ensures found: ok == has(hhm, str(hash))
+  ensures value: ok ==> info.headerNonce == hhm[str(hash)].headerNonce && info.headerShardId == hhm[str(hash)].headerShardId
+  assigns nothing
+
+spec fn wH() string
+spec fn wS() uint32
+  axiom 0 <= wS() && wS() < 4294967296
+spec fn wN() uint64
+  axiom 0 <= wN() && wN() < 18446744073709551616
+
+func (hhm headersByHashMap) deleteBulk(hashes [][]byte)
+  ensures removed: forall j :: 0 <= j && j < len(hashes) ==> !has(hhm, str(hashes[j]))
+  ensures witness: (forall j :: 0 <= j && j < len(hashes) ==> str(hashes[j]) != wH()) ==> has(hhm, wH()) == old(has(hhm, wH())) && hhm[wH()].headerNonce == old(hhm[wH()].headerNonce) && hhm[wH()].headerShardId == old(hhm[wH()].headerShardId)
+  ensures no-new: has(hhm, wH()) ==> old(has(hhm, wH()))
+  assigns mapof(hhm)
+
+loop 1
+  invariant -1 <= rangeindex && rangeindex < len(hashes)
+  invariant forall j :: 0 <= j && j <= rangeindex ==> !has(hhm, str(hashes[j]))
+  invariant (forall j :: 0 <= j && j <= rangeindex ==> str(hashes[j]) != wH()) ==> has(hhm, wH()) == old(has(hhm, wH())) && hhm[wH()].headerNonce == old(hhm[wH()].headerNonce) && hhm[wH()].headerShardId == old(hhm[wH()].headerShardId)
+  invariant has(hhm, wH()) ==> old(has(hhm, wH()))
+@*/
+
+/*@
+// ---- the cache: three indexes ------------------------------------------------------------------------------------------------
+spec fn lst(c *headersCache, s uint32, n uint64) []headerDetails = c.headersNonceCache[s][n].items
+spec fn hasList(c *headersCache, s uint32, n uint64) bool = has(c.headersNonceCache, s) && has(c.headersNonceCache[s], n)
+// hash h is listed under (shard s, nonce n)
+spec fn listedAt(c *headersCache, s uint32, n uint64, h string) bool = hasList(c, s, n) && (exists j :: 0 <= j && j < len(lst(c, s, n)) && str(lst(c, s, n)[j].headerHash) == h)
+// representation invariant of one list: no hash twice (addHeader refuses duplicates)
+// (indexes go through the identity ixf so that the solvers' trigger is {ixf(i), ixf(j)}: their automatic choice on the plain form never fires)
+spec fn distinctHashes(c *headersCache, s uint32, n uint64) bool = forall i, j :: 0 <= i && i < j && j < len(lst(c, s, n)) ==> str(lst(c, s, n)[ixf(i)].headerHash) != str(lst(c, s, n)[ixf(j)].headerHash)
+spec fn ixf(k int) int
+  axiom ixf(k) == k
+spec fn wrapSub(a int, v int) int = a >= v ? a - v : a - v + 18446744073709551616
+
+func (cache *headersCache) removeHeaderFromNonceMap(headerInfo headerInfo, headerHash []byte)
+  holds ownerPool(cache).mutHeadersPool
+  requires shard-map-made: has(cache.headersNonceCache, headerInfo.headerShardId) ==> cache.headersNonceCache[headerInfo.headerShardId] != nil
+  requires shard-maps-not-shared: has(cache.headersNonceCache, wS()) && wS() != headerInfo.headerShardId ==> cache.headersNonceCache[wS()] != cache.headersNonceCache[headerInfo.headerShardId]
+  requires no-hash-twice: distinctHashes(cache, headerInfo.headerShardId, headerInfo.headerNonce)
+  // the hash was listed: the stored list gets shorter by one (the entry is deleted when it becomes empty) ...
+  ensures shorter: old(listedAt(cache, headerInfo.headerShardId, headerInfo.headerNonce, str(headerHash))) ==>
+             (old(len(lst(cache, headerInfo.headerShardId, headerInfo.headerNonce))) == 1 ? !hasList(cache, headerInfo.headerShardId, headerInfo.headerNonce)
+               : hasList(cache, headerInfo.headerShardId, headerInfo.headerNonce) && len(lst(cache, headerInfo.headerShardId, headerInfo.headerNonce)) == old(len(lst(cache, headerInfo.headerShardId, headerInfo.headerNonce))) - 1)
+  // ... what the nonce map holds afterwards no longer lists it ...
+  ensures gone: !listedAt(cache, headerInfo.headerShardId, headerInfo.headerNonce, str(headerHash))
+  // ... every other hash stays, none appears ...
+  ensures others-stay: wH() != str(headerHash) && old(listedAt(cache, headerInfo.headerShardId, headerInfo.headerNonce, wH())) ==> listedAt(cache, headerInfo.headerShardId, headerInfo.headerNonce, wH())
+  ensures none-new: listedAt(cache, headerInfo.headerShardId, headerInfo.headerNonce, wH()) ==> old(listedAt(cache, headerInfo.headerShardId, headerInfo.headerNonce, wH()))
+  // ... and the counter of the shard goes down by exactly one
+  ensures counter: old(listedAt(cache, headerInfo.headerShardId, headerInfo.headerNonce, str(headerHash))) && old(has(cache.headersCounter, headerInfo.headerShardId)) ==>
+             has(cache.headersCounter, headerInfo.headerShardId) && cache.headersCounter[headerInfo.headerShardId] == wrapSub(old(cache.headersCounter[headerInfo.headerShardId]), 1)
+  ensures counter-kept: !old(listedAt(cache, headerInfo.headerShardId, headerInfo.headerNonce, str(headerHash))) ==>
+             has(cache.headersCounter, headerInfo.headerShardId) == old(has(cache.headersCounter, headerInfo.headerShardId)) && cache.headersCounter[headerInfo.headerShardId] == old(cache.headersCounter[headerInfo.headerShardId])
+  ensures other-counters: wS() != headerInfo.headerShardId ==> has(cache.headersCounter, wS()) == old(has(cache.headersCounter, wS())) && cache.headersCounter[wS()] == old(cache.headersCounter[wS()])
+  // lists of other (shard, nonce) pairs are what they were
+  ensures other-lists: (wS() != headerInfo.headerShardId || wN() != headerInfo.headerNonce) ==> hasList(cache, wS(), wN()) == old(hasList(cache, wS(), wN())) && (hasList(cache, wS(), wN()) ==> lst(cache, wS(), wN()) == old(lst(cache, wS(), wN())))
+  assigns mapof(cache.headersNonceCache[headerInfo.headerShardId]), mapof(cache.headersCounter), elems(lst(cache, headerInfo.headerShardId, headerInfo.headerNonce))
+
+loop 1
+  invariant -1 <= rangeindex && rangeindex < len(headers.items)
+  invariant forall k :: 0 <= k && k <= rangeindex ==> str(headers.items[k].headerHash) != str(headerHash)
+@*/
+
+/*@
+spec fn shOf(c *headersCache, h string) uint32 = c.headersByHash[h].headerShardId
+spec fn nnOf(c *headersCache, h string) uint64 = c.headersByHash[h].headerNonce
+spec fn indexed(c *headersCache, h string) bool = has(c.headersByHash, h)
+spec fn u32(x int) bool = 0 <= x && x < 4294967296     // (a value read from a map inside a spec carries no range fact)
+
+// C29: removal by hash removes the hash from the hash index AND from the list stored under its (shard, nonce), counter minus one
+func (cache *headersCache) removeHeaderByHash(hash []byte)
+  holds ownerPool(cache).mutHeadersPool
+  requires shard-map-made: indexed(cache, str(hash)) && u32(shOf(cache, str(hash))) && has(cache.headersNonceCache, shOf(cache, str(hash))) ==> cache.headersNonceCache[shOf(cache, str(hash))] != nil
+  requires shard-maps-not-shared: has(cache.headersNonceCache, wS()) && wS() != shOf(cache, str(hash)) && u32(shOf(cache, str(hash))) ==> cache.headersNonceCache[wS()] != cache.headersNonceCache[shOf(cache, str(hash))]
+  requires no-hash-twice: distinctHashes(cache, shOf(cache, str(hash)), nnOf(cache, str(hash)))
+  ensures hash-index: len(hash) != 0 ==> !indexed(cache, str(hash))
+  ensures hash-index-others: wH() != str(hash) ==> indexed(cache, wH()) == old(indexed(cache, wH())) && shOf(cache, wH()) == old(shOf(cache, wH())) && nnOf(cache, wH()) == old(nnOf(cache, wH()))
+  ensures nonce-index: len(hash) != 0 && old(indexed(cache, str(hash))) ==> !listedAt(cache, old(shOf(cache, str(hash))), old(nnOf(cache, str(hash))), str(hash))
+  ensures nonce-index-shorter: len(hash) != 0 && old(indexed(cache, str(hash))) && old(listedAt(cache, shOf(cache, str(hash)), nnOf(cache, str(hash)), str(hash))) ==>
+             (old(len(lst(cache, shOf(cache, str(hash)), nnOf(cache, str(hash))))) == 1 ? !hasList(cache, old(shOf(cache, str(hash))), old(nnOf(cache, str(hash))))
+               : hasList(cache, old(shOf(cache, str(hash))), old(nnOf(cache, str(hash)))) && len(lst(cache, old(shOf(cache, str(hash))), old(nnOf(cache, str(hash))))) == old(len(lst(cache, shOf(cache, str(hash)), nnOf(cache, str(hash))))) - 1)
+  ensures nonce-index-others-stay: old(indexed(cache, str(hash))) && wH() != str(hash) && old(listedAt(cache, shOf(cache, str(hash)), nnOf(cache, str(hash)), wH())) ==> listedAt(cache, old(shOf(cache, str(hash))), old(nnOf(cache, str(hash))), wH())
+  ensures nonce-index-none-new: old(indexed(cache, str(hash))) && listedAt(cache, old(shOf(cache, str(hash))), old(nnOf(cache, str(hash))), wH()) ==> old(listedAt(cache, shOf(cache, str(hash)), nnOf(cache, str(hash)), wH()))
+  ensures counter: len(hash) != 0 && old(indexed(cache, str(hash))) && old(listedAt(cache, shOf(cache, str(hash)), nnOf(cache, str(hash)), str(hash))) && old(has(cache.headersCounter, shOf(cache, str(hash)))) ==>
+             has(cache.headersCounter, old(shOf(cache, str(hash)))) && cache.headersCounter[old(shOf(cache, str(hash)))] == wrapSub(old(cache.headersCounter[shOf(cache, str(hash))]), 1)
+  ensures other-counters: !old(indexed(cache, str(hash))) || wS() != old(shOf(cache, str(hash))) ==> has(cache.headersCounter, wS()) == old(has(cache.headersCounter, wS())) && cache.headersCounter[wS()] == old(cache.headersCounter[wS()])
+  ensures other-lists: !old(indexed(cache, str(hash))) || wS() != old(shOf(cache, str(hash))) || wN() != old(nnOf(cache, str(hash))) ==> hasList(cache, wS(), wN()) == old(hasList(cache, wS(), wN())) && (hasList(cache, wS(), wN()) ==> lst(cache, wS(), wN()) == old(lst(cache, wS(), wN())))
+  assigns mapof(cache.headersByHash), mapof(cache.headersNonceCache[shOf(cache, str(hash))]), mapof(cache.headersCounter), elems(lst(cache, shOf(cache, str(hash)), nnOf(cache, str(hash))))
+@*/
+
+/*@
+// C29: removal by (nonce, shard) removes every hash of that list from the hash index, the list from the nonce map, and the list's length from the counter
+func (cache *headersCache) removeHeaderByNonceAndShardId(headerNonce uint64, shardId uint32) (r int)
+  holds ownerPool(cache).mutHeadersPool
+  requires shard-map-made: has(cache.headersNonceCache, shardId) ==> cache.headersNonceCache[shardId] != nil
+  requires shard-maps-not-shared: has(cache.headersNonceCache, wS()) && wS() != shardId ==> cache.headersNonceCache[wS()] != cache.headersNonceCache[shardId]
+  ensures count: r == (old(hasList(cache, shardId, headerNonce)) ? old(len(lst(cache, shardId, headerNonce))) : 0)
+  ensures nonce-index: r != 0 ==> !hasList(cache, shardId, headerNonce)
+  ensures hash-index: forall j :: 0 <= j && j < r ==> !indexed(cache, str(old(lst(cache, shardId, headerNonce)[j].headerHash)))
+  ensures hash-index-others: (forall j :: 0 <= j && j < r ==> str(old(lst(cache, shardId, headerNonce)[j].headerHash)) != wH()) ==> indexed(cache, wH()) == old(indexed(cache, wH())) && shOf(cache, wH()) == old(shOf(cache, wH())) && nnOf(cache, wH()) == old(nnOf(cache, wH()))
+  ensures hash-index-none-new: indexed(cache, wH()) ==> old(indexed(cache, wH())) && shOf(cache, wH()) == old(shOf(cache, wH())) && nnOf(cache, wH()) == old(nnOf(cache, wH()))
+  ensures counter: r != 0 && old(has(cache.headersCounter, shardId)) ==> has(cache.headersCounter, shardId) && cache.headersCounter[shardId] == wrapSub(old(cache.headersCounter[shardId]), r)
+  ensures counter-kept: r == 0 ==> has(cache.headersCounter, shardId) == old(has(cache.headersCounter, shardId)) && cache.headersCounter[shardId] == old(cache.headersCounter[shardId])
+  ensures counter-domain: has(cache.headersCounter, wS()) == old(has(cache.headersCounter, wS()))
+  ensures other-counters: wS() != shardId ==> cache.headersCounter[wS()] == old(cache.headersCounter[wS()])
+  ensures other-lists: (wS() != shardId || wN() != headerNonce) ==> hasList(cache, wS(), wN()) == old(hasList(cache, wS(), wN())) && (hasList(cache, wS(), wN()) ==> lst(cache, wS(), wN()) == old(lst(cache, wS(), wN())))
+  ensures lists-none-new: hasList(cache, wS(), wN()) ==> old(hasList(cache, wS(), wN())) && lst(cache, wS(), wN()) == old(lst(cache, wS(), wN()))
+  assigns mapof(cache.headersNonceCache[shardId]), mapof(cache.headersByHash), mapof(cache.headersCounter)
+
+loop 1
+  invariant -1 <= rangeindex && rangeindex < len(headersHashes)
+
+// sort.Slice with a closure: outside the engine's reach; only its frame is assumed (the eviction ORDER is not part of C29)
+func (hMap listOfHeadersByNonces) getNoncesSortedByTimestamp() (r []uint64)
+  trusted
+  ensures fresh(r)
+  assigns nothing
+
+// eviction only removes: whole (shard, nonce) lists of the given shard, with their hashes and their share of the counter
+func (cache *headersCache) lruEviction(shardId uint32)
+  holds ownerPool(cache).mutHeadersPool
+  requires shard-map-made: has(cache.headersNonceCache, shardId) ==> cache.headersNonceCache[shardId] != nil
+  requires shard-maps-not-shared: has(cache.headersNonceCache, wS()) && wS() != shardId ==> cache.headersNonceCache[wS()] != cache.headersNonceCache[shardId]
+  ensures hash-index-none-new: indexed(cache, wH()) ==> old(indexed(cache, wH())) && shOf(cache, wH()) == old(shOf(cache, wH())) && nnOf(cache, wH()) == old(nnOf(cache, wH()))
+  ensures lists-none-new: hasList(cache, wS(), wN()) ==> old(hasList(cache, wS(), wN())) && lst(cache, wS(), wN()) == old(lst(cache, wS(), wN()))
+  ensures other-shards: wS() != shardId ==> hasList(cache, wS(), wN()) == old(hasList(cache, wS(), wN())) && cache.headersCounter[wS()] == old(cache.headersCounter[wS()])
+  ensures counter-domain: has(cache.headersCounter, wS()) == old(has(cache.headersCounter, wS()))
+  assigns mapof(cache.headersNonceCache[shardId]), mapof(cache.headersByHash), mapof(cache.headersCounter)
+
+loop 1
+  invariant 0 <= i && maxItemsToRemove <= len(nonces)
+  invariant indexed(cache, wH()) ==> old(indexed(cache, wH())) && shOf(cache, wH()) == old(shOf(cache, wH())) && nnOf(cache, wH()) == old(nnOf(cache, wH()))
+  invariant hasList(cache, wS(), wN()) ==> old(hasList(cache, wS(), wN())) && lst(cache, wS(), wN()) == old(lst(cache, wS(), wN()))
+  invariant wS() != shardId ==> hasList(cache, wS(), wN()) == old(hasList(cache, wS(), wN())) && cache.headersCounter[wS()] == old(cache.headersCounter[wS()])
+  invariant has(cache.headersCounter, wS()) == old(has(cache.headersCounter, wS()))
+
+spec fn mustEvict(c *headersCache, s uint32) bool = int(int64(has(c.headersCounter, s) ? c.headersCounter[s] : 0)) >= c.maxHeadersPerShard
+
+func (cache *headersCache) tryToDoEviction(shardId uint32)
+  holds ownerPool(cache).mutHeadersPool
+  requires shard-map-made: has(cache.headersNonceCache, shardId) ==> cache.headersNonceCache[shardId] != nil
+  requires shard-maps-not-shared: has(cache.headersNonceCache, wS()) && wS() != shardId ==> cache.headersNonceCache[wS()] != cache.headersNonceCache[shardId]
+  ensures hash-index-none-new: indexed(cache, wH()) ==> old(indexed(cache, wH())) && shOf(cache, wH()) == old(shOf(cache, wH())) && nnOf(cache, wH()) == old(nnOf(cache, wH()))
+  ensures lists-none-new: hasList(cache, wS(), wN()) ==> old(hasList(cache, wS(), wN())) && lst(cache, wS(), wN()) == old(lst(cache, wS(), wN()))
+  ensures other-shards: wS() != shardId ==> hasList(cache, wS(), wN()) == old(hasList(cache, wS(), wN())) && cache.headersCounter[wS()] == old(cache.headersCounter[wS()])
+  ensures counter-domain: has(cache.headersCounter, wS()) == old(has(cache.headersCounter, wS()))
+  // below the limit nothing is evicted
+  ensures not-full: !old(mustEvict(cache, shardId)) ==> indexed(cache, wH()) == old(indexed(cache, wH())) && shOf(cache, wH()) == old(shOf(cache, wH())) && nnOf(cache, wH()) == old(nnOf(cache, wH()))
+                && hasList(cache, wS(), wN()) == old(hasList(cache, wS(), wN())) && has(cache.headersNonceCache, wS()) == old(has(cache.headersNonceCache, wS())) && lst(cache, wS(), wN()) == old(lst(cache, wS(), wN()))
+                && cache.headersCounter[wS()] == old(cache.headersCounter[wS()])
+  assigns mapof(cache.headersNonceCache[shardId]), mapof(cache.headersByHash), mapof(cache.headersCounter)
+@*/
+
+/*@
+// C29: addHeader inserts the hash into the hash index, into the (shard, nonce) list and increments the shard counter TOGETHER,
+// or (nil header, empty hash, duplicate) changes none of the three. Eviction runs first when the shard is full (mustEvict):
+// the exact deltas are stated relative to the entry state for the not-full case; when full, "added to all three" still holds.
+func (cache *headersCache) addHeader(headerHash []byte, header data.HeaderHandler) (ok bool)
+  holds ownerPool(cache).mutHeadersPool
+  requires maps-made: cache.headersNonceCache != nil && cache.headersByHash != nil && cache.headersCounter != nil
+  requires shard-map-made: has(cache.headersNonceCache, header.GetShardID()) ==> cache.headersNonceCache[header.GetShardID()] != nil
+  requires shard-maps-not-shared: has(cache.headersNonceCache, wS()) && wS() != header.GetShardID() ==> cache.headersNonceCache[wS()] != cache.headersNonceCache[header.GetShardID()] && allocated(cache.headersNonceCache[wS()])
+  ensures refused: (isNil(header) || len(headerHash) == 0) ==> !ok
+  // (clauses about THIS hash / THIS (shard, nonce) pair bind the witness: `wH() == str(headerHash) ==> ..` holds for every wH, so for that one)
+  ensures duplicate-refused: wH() == str(headerHash) && old(indexed(cache, wH())) && !old(mustEvict(cache, header.GetShardID())) ==> !ok
+  ensures added-hash-index: ok ==> indexed(cache, str(headerHash)) && shOf(cache, str(headerHash)) == header.GetShardID() && nnOf(cache, str(headerHash)) == header.GetNonce()
+  ensures added-nonce-index: ok ==> hasList(cache, header.GetShardID(), header.GetNonce())
+  ensures added-nonce-index-last: ok ==> lst(cache, header.GetShardID(), header.GetNonce())[len(lst(cache, header.GetShardID(), header.GetNonce())) - 1].headerHash == headerHash
+  ensures added-counter: ok ==> has(cache.headersCounter, header.GetShardID())
+  ensures list-plus-one: wS() == header.GetShardID() && wN() == header.GetNonce() && ok && !old(mustEvict(cache, header.GetShardID())) ==> len(lst(cache, wS(), wN())) == (old(hasList(cache, wS(), wN())) ? old(len(lst(cache, wS(), wN()))) : 0) + 1
+  ensures list-others-stay: wS() == header.GetShardID() && wN() == header.GetNonce() && ok && !old(mustEvict(cache, header.GetShardID())) && old(listedAt(cache, wS(), wN(), wH())) ==> listedAt(cache, wS(), wN(), wH())
+  ensures counter-plus-one: wS() == header.GetShardID() && ok && !old(mustEvict(cache, header.GetShardID())) ==> cache.headersCounter[wS()] == ((old(has(cache.headersCounter, wS())) ? old(cache.headersCounter[wS()]) : 0) + 1) % 18446744073709551616
+  ensures other-hashes: !old(mustEvict(cache, header.GetShardID())) && wH() != str(headerHash) ==> indexed(cache, wH()) == old(indexed(cache, wH())) && shOf(cache, wH()) == old(shOf(cache, wH())) && nnOf(cache, wH()) == old(nnOf(cache, wH()))
+  ensures other-counters: wS() != header.GetShardID() ==> has(cache.headersCounter, wS()) == old(has(cache.headersCounter, wS())) && cache.headersCounter[wS()] == old(cache.headersCounter[wS()])
+  ensures other-lists: !old(mustEvict(cache, header.GetShardID())) && (wS() != header.GetShardID() || wN() != header.GetNonce()) ==> hasList(cache, wS(), wN()) == old(hasList(cache, wS(), wN())) && (hasList(cache, wS(), wN()) ==> lst(cache, wS(), wN()) == old(lst(cache, wS(), wN())))
+  // refused (nil header, empty hash, duplicate): none of the three changes
+  ensures refused-changes-none: !ok && !old(mustEvict(cache, header.GetShardID())) ==> indexed(cache, wH()) == old(indexed(cache, wH())) && shOf(cache, wH()) == old(shOf(cache, wH())) && nnOf(cache, wH()) == old(nnOf(cache, wH()))
+                && hasList(cache, wS(), wN()) == old(hasList(cache, wS(), wN())) && (hasList(cache, wS(), wN()) ==> lst(cache, wS(), wN()) == old(lst(cache, wS(), wN())))
+                && has(cache.headersCounter, wS()) == old(has(cache.headersCounter, wS())) && cache.headersCounter[wS()] == old(cache.headersCounter[wS()])
+  assigns mapof(cache.headersNonceCache), mapof(cache.headersNonceCache[header.GetShardID()]), mapof(cache.headersByHash), mapof(cache.headersCounter), allelems(lst(cache, header.GetShardID(), header.GetNonce()))
+
+// ---- lookups: they refresh a timestamp, the three indexes (lists as slices, hash index, counters) stay what they were ------------------
+func (cache *headersCache) getHeaderByHash(hash []byte) (h data.HeaderHandler, err error)
+  holds ownerPool(cache).mutHeadersPool
+  requires shard-map-made: indexed(cache, str(hash)) && u32(shOf(cache, str(hash))) && has(cache.headersNonceCache, shOf(cache, str(hash))) ==> cache.headersNonceCache[shOf(cache, str(hash))] != nil
+  requires shard-maps-not-shared: has(cache.headersNonceCache, wS()) && wS() != shOf(cache, str(hash)) && u32(shOf(cache, str(hash))) ==> cache.headersNonceCache[wS()] != cache.headersNonceCache[shOf(cache, str(hash))]
+  // found <=> the hash is in the hash index AND listed under the (shard, nonce) the index names
+  ensures found: err == nil ==> old(indexed(cache, str(hash))) && listedAt(cache, shOf(cache, str(hash)), nnOf(cache, str(hash)), str(hash))
+  ensures not-found: err != nil ==> !(indexed(cache, str(hash)) && listedAt(cache, shOf(cache, str(hash)), nnOf(cache, str(hash)), str(hash)))
+  ensures lists-kept: hasList(cache, wS(), wN()) == old(hasList(cache, wS(), wN())) && (hasList(cache, wS(), wN()) ==> lst(cache, wS(), wN()) == old(lst(cache, wS(), wN())))
+  assigns mapof(cache.headersNonceCache[shOf(cache, str(hash))])
+
+func (listOfHeaders *timestampedListOfHeaders) findHeaderByHash(hash []byte) (h data.HeaderHandler, ok bool)
+  ensures found: ok ==> exists j :: 0 <= j && j < len(listOfHeaders.items) && str(listOfHeaders.items[j].headerHash) == str(hash)
+  ensures not-found: !ok ==> forall j :: 0 <= j && j < len(listOfHeaders.items) ==> str(listOfHeaders.items[j].headerHash) != str(hash)
+  assigns nothing
+
+loop 1
+  invariant -1 <= rangeindex && rangeindex < len(listOfHeaders.items)
+  invariant forall k :: 0 <= k && k <= rangeindex ==> str(listOfHeaders.items[k].headerHash) != str(hash)
+
+func (cache *headersCache) getHeadersByNonceAndShardId(headerNonce uint64, shardId uint32) (r []headerDetails, ok bool)
+  holds ownerPool(cache).mutHeadersPool
+  requires shard-map-made: has(cache.headersNonceCache, shardId) ==> cache.headersNonceCache[shardId] != nil
+  requires shard-maps-not-shared: has(cache.headersNonceCache, wS()) && wS() != shardId ==> cache.headersNonceCache[wS()] != cache.headersNonceCache[shardId]
+  ensures found: ok == (old(hasList(cache, shardId, headerNonce)) && old(len(lst(cache, shardId, headerNonce))) != 0)
+  ensures result: ok ==> r == old(lst(cache, shardId, headerNonce))
+  ensures lists-kept: hasList(cache, wS(), wN()) == old(hasList(cache, wS(), wN())) && (hasList(cache, wS(), wN()) ==> lst(cache, wS(), wN()) == old(lst(cache, wS(), wN())))
+  assigns mapof(cache.headersNonceCache[shardId])
+@*/
+
+// Lock mode of the lookup by (nonce, shard): it refreshes the LRU timestamp (a write into the per-shard map), so the pool must hold the
+// WRITE lock. The cache has no mutex of its own: ownerPool(c) is the (ghost) pool a cache belongs to; the pool methods assume
+// `ownerPool(pool.cache) == pool`, the writing cache methods require its mutex held in write mode.
+/*@
+spec fn ownerPool(c *headersCache) *headersPool
+
+func (cache *headersCache) getHeadersAndHashesByNonceAndShardId(nonce uint64, shardId uint32) (hs []data.HeaderHandler, hashes [][]byte, ok bool)
+  holds ownerPool(cache).mutHeadersPool
+  requires shard-map-made: has(cache.headersNonceCache, shardId) ==> cache.headersNonceCache[shardId] != nil
+  requires shard-maps-not-shared: has(cache.headersNonceCache, wS()) && wS() != shardId ==> cache.headersNonceCache[wS()] != cache.headersNonceCache[shardId]
+  ensures found: ok == (old(hasList(cache, shardId, nonce)) && old(len(lst(cache, shardId, nonce))) != 0)
+  ensures same-len: ok ==> len(hs) == old(len(lst(cache, shardId, nonce))) && len(hashes) == len(hs)
+  ensures lists-kept: hasList(cache, wS(), wN()) == old(hasList(cache, wS(), wN())) && (hasList(cache, wS(), wN()) ==> lst(cache, wS(), wN()) == old(lst(cache, wS(), wN())))
+  assigns mapof(cache.headersNonceCache[shardId])
+
+loop 1
+  invariant -1 <= rangeindex && rangeindex < len(headersList)
+  invariant fresh(headers) && fresh(hashes) && len(headers) == rangeindex + 1 && len(hashes) == rangeindex + 1
+@*/
+
+// Representation invariants of the cache, ASSUMED at the entry of every pool method (the pool methods do not re-establish them:
+// that would need the consistency invariant over all hashes): maps are made, every per-shard map is made and not shared between
+// shards, no list holds a hash twice.
+// (a second `struct headersPool` block would replace the first one: the three invariants maps-made, shard-maps-made,
+//  shard-maps-not-shared are therefore added to the struct block at the top of this file)
